@@ -218,10 +218,12 @@ class ConditionSelector(ConditionItem):
         """
         Resolve all detection identifiers referenced by the selector.
         """
+        # DOTALL: the wildcard stands for any character sequence, also in detection
+        # identifiers that contain a line break (possible with quoted YAML keys).
         if self.pattern == "them":
-            r = re.compile(".*")
+            r = re.compile(".*", re.DOTALL)
         else:
-            r = re.compile(self.pattern.replace("*", ".*"))
+            r = re.compile(self.pattern.replace("*", ".*"), re.DOTALL)
 
         # When a filter is applied to a rule its detection identifiers are renamed to
         # start with a `_filt_<random>_` prefix, and its condition patterns receive the
